@@ -13,7 +13,8 @@ the way Numba types it from the explicit `@njit` signatures:
   * integer − integer is accepted only under a guard that makes it non-negative (the else-branch of `a <= b` for `a − b`);
   * an integer meeting a float is converted with `Float.ofNat`.
 
-Output: `Model/Generated/FloatCells.lean` (`Src.counter2value`, `Src.merge_log16_cell`, `Src.merge_log8_cell`);
+Output: `Model/Generated/FloatCells.lean` (`Src.counter2value`, `Src.merge_log16_cell`, `Src.merge_log8_cell`, and the two float helpers of the
+HyperLogLog estimator, `Src.linear_counting`, `Src.estimation_function` — a `for r in registers: total += …` loop is a left fold over the register list);
 `Properties/SrcFloat.lean` proves them equal to the hand-written float mirror (`counter2valueF`, `mergeLogCellF`) that the driver
 evaluates in the bit-for-bit correspondence.  Anything outside the listed forms is a translation error.
 """
@@ -146,6 +147,8 @@ class FT:
             # integers
             if isinstance(n.op, ast.Add):
                 return f"({l} + {r})", ("u", 64)
+            if isinstance(n.op, ast.Pow) and rt == "lit":
+                return f"({l} ^ {r})", ("u", 64)
             if isinstance(n.op, ast.Sub):
                 if (l, r) in self.facts:
                     return f"({l} - {r})", ("u", 64)
@@ -182,6 +185,16 @@ class FT:
                 self.env[nm] = t
                 self.facts = [f for f in self.facts if nm not in f]
                 code += f"{ind}let {nm} := {e}\n"
+            elif isinstance(s, ast.For) and isinstance(s.target, ast.Name) and isinstance(s.iter, ast.Name) and not s.orelse \
+                    and isinstance(self.env.get(s.iter.id), tuple) and self.env[s.iter.id][0] == "arr" and len(s.body) == 1 \
+                    and isinstance(s.body[0], ast.AugAssign) and isinstance(s.body[0].op, ast.Add) and isinstance(s.body[0].target, ast.Name) \
+                    and self.env.get(s.body[0].target.id) == "f":
+                acc, it = s.body[0].target.id, s.target.id
+                save = dict(self.env)
+                self.env[it] = ("u", self.env[s.iter.id][1])
+                e, t = self.expr(s.body[0].value)
+                self.env = save
+                code += f"{ind}let {acc} := {s.iter.id}.foldl (fun {acc} {it} => ({acc} + {self.to_f(e, t)})) {acc}\n"
             elif isinstance(s, ast.If) and last:
                 c, fact = self.test(s.test)
                 save_env, save_facts = dict(self.env), list(self.facts)
@@ -262,6 +275,27 @@ def translate_all():
         except TranslateError as e:
             errors.append(f"{lean}: {e}")
             out[lean] = f"-- TRANSLATION FAILED for {lean}: {e}\n"
+    # hyperloglog: the two float helpers of the estimator
+    htree = _parse(os.path.join(REPO, "sketchnu", "hyperloglog.py"))[1]
+    hfns = {n.name: n for n in htree.body if isinstance(n, ast.FunctionDef)}
+    for py, lean in (("_linear_counting", "linear_counting"), ("_estimation_function", "estimation_function")):
+        try:
+            fn = hfns.get(py)
+            if fn is None:
+                raise TranslateError(f"{py} not found")
+            ptys, rty = _sig_types(fn)
+            names = [a.arg for a in fn.args.args]
+            if rty != "f" or len(ptys) != len(names):
+                raise TranslateError(f"{py}: unexpected signature")
+            tr = FT(py, dict(zip(names, ptys)), {})
+            body = tr.block(fn.body, "  ", "ret")
+            lty = lambda t: "Float" if t == "f" else ("List Nat" if isinstance(t, tuple) and t[0] == "arr" else "Nat")
+            args = " ".join(f"({n} : {lty(t)})" for n, t in zip(names, ptys))
+            out[lean] = (f"/-- `hyperloglog.{py}` as it reads, over `Float`; signature " + ast.unparse(fn.decorator_list[0].args[0]) + " -/\n"
+                         f"def {lean} {args} : Float :=\n{body}")
+        except TranslateError as e:
+            errors.append(f"{lean}: {e}")
+            out[lean] = f"-- TRANSLATION FAILED for {lean}: {e}\n"
     return out, errors
 
 
@@ -270,7 +304,7 @@ def run():
     L = ["/- GENERATED by harness/floattr.py from the current /repo source — do not edit.",
          "   The float code of the log counters (`_counter2value`, the cell body of `_merge_log16/8`) as Lean `Float` programs. -/",
          "namespace Sketchnu.Src", ""]
-    for n in ("counter2value", "merge_log16_cell", "merge_log8_cell"):
+    for n in ("counter2value", "merge_log16_cell", "merge_log8_cell", "linear_counting", "estimation_function"):
         L.append(defs[n])
     L.append("end Sketchnu.Src")
     changed = ["FloatCells.lean"] if _write_if_changed(os.path.join(GEN, "FloatCells.lean"), "\n".join(L) + "\n") else []
